@@ -93,6 +93,8 @@ def candidates():
         for i, l in enumerate(lines):
             if "#[cfg(test)]" in l:
                 in_tests = True
+            if '#[cfg(feature = "verif-hooks")]' in l and i + 1 < len(lines) and lines[i + 1].startswith("impl"):
+                in_tests = True  # the instrumentation impl blocks at the end of a file are not product code
             if in_tests or l.strip().startswith("//") or "verif" in l or "assert" in l or "panic!" in l:
                 continue
             for pat, rep in RULES:
